@@ -108,7 +108,8 @@ MethodNamesOK(o, me) ==
         quals  == {o.imports[i].qual : i \in DOMAIN o.imports} IN
     /\ Distinct(locals)
     /\ \A i \in DOMAIN locals : /\ locals[i] \notin Keywords
-                                /\ locals[i] \notin BodyNames
+                                /\ locals[i] # me.recv                    \* the receiver
+                                /\ locals[i] \notin Range(me.locals)      \* variables the generated body declares (the record)
                                 /\ locals[i] \notin Range(me.sigIdents)   \* qualifiers and type names the method must still resolve
                                 /\ locals[i] # "" /\ locals[i] # "_"
     /\ Distinct(me.recFields)
@@ -156,7 +157,7 @@ C16(c) == LET o == c.obs IN
 MockShape(m) == [sigs |-> Keys(m.mockSigs), fields |-> Keys(m.fieldSigs), ff |-> Range(m.funcFields),
                  methods |-> Range(m.allMethods), rec |-> {<<m.methods[j].name, m.methods[j].recKeys>> : j \in DOMAIN m.methods}]
 C20(c) == LET o == c.obs IN
-    /\ o.decls = [i \in DOMAIN o.mocks |-> o.mocks[i].name]           \* one mock type per argument, in order, named as requested
+    /\ o.mockDecls = [i \in DOMAIN o.mocks |-> o.mocks[i].name]       \* one mock type per argument, in order, named as requested
     /\ \A i \in DOMAIN o.mocks : o.mocks[i].found
     /\ \A i \in DOMAIN c.solo : MockShape(c.solo[i]) = MockShape(o.mocks[c.soloIdx[i]])
 
